@@ -109,7 +109,7 @@ def _fill_topdown(cinco, schema, d, root, validators):
             _fill_topdown(cinco, sub, f, root, validators)  # ... then add the children
         elif f["kind"] == "schema":
             sub = build_schema_topdown(cinco, f, root, validators, _top=False)
-            typ = cinco.make_type(sub, "T_" + key, key_filename=_keyfile(f, root))
+            typ = cinco.make_type(sub, f.get("tname") or "T_" + key, key_filename=_keyfile(f, root))
             setattr(schema, key, typ)
         elif f["kind"] == "virtual":
             vk = f.get("vk", "const")
